@@ -1,6 +1,7 @@
 # C20 - An interrupt cancels exactly the innermost running evaluation, safely
 import os, re, json, copy
 import vlib
+import replarm
 from vlib import Inconclusive
 
 LEVEL = 'model_checking'
@@ -18,7 +19,13 @@ META = dict(
           'conflicting pair as in the Go memory model). TLC checks the repaired protocol (a done channel per call) for race freedom, true '
           'results, termination of the loop goroutine and of the caller, and keeps the code as it was and the tempting buffered-channel '
           'repair as violated witnesses; traces of the real reader over a gated source (cancellation before / during / after each call), '
-          'recorded under the race detector, are validated by TraceCtxRS.tla with the hand-over and the close as silent steps.'),
+          'recorded under the race detector, are validated by TraceCtxRS.tla with the hand-over and the close as silent steps. '
+          'Repl.tla states the read-eval-print loop (pkg/interp/repl.jq) as a function from loop state (nested levels with their inputs and '
+          'options, the slurps) and one answer of the line reader to the next state and the lines printed - including an interrupt at the '
+          'prompt, while a line runs (after a nested evaluation of it finished, failed to compile, or was abandoned) and while `F | repl` '
+          'collects; ReplMC model checks that an interrupt ends the innermost evaluation only, TLC emits every one-line script and random '
+          'longer sessions, the real `fq -i` runs them on a scripted line reader with interrupts through OS.InterruptChan(), and '
+          'TraceRepl.tla judges every prompt (the loop\'s own projection of its state), every printed line and the end of every session.'),
     note=('Exhaustive only inside the TLC constants recorded in the evidence (tlc_runs, seq_gen_exhaustive); random histories and OS-scheduled '
           'interleavings beyond. The PlusCal model is bound to the code by reading (one label per memory access), by the sequential GEN/TV arms, '
           'by linearisability checking of traced two-goroutine histories and by the race detector; TLC\'s NoCrash counterexample schedule is '
@@ -27,7 +34,7 @@ META = dict(
           'the pinned tree: D7 (unsynchronised cancelFns: race + index crash) and D20 (late finish re-slices cancelFns), recognised by signature.'),
     technique=('TLA+/PlusCal spec (CtxStack.tla) + TLC exhaustive MC of the as-built and repaired designs + TLC-emitted operation sequences '
                'replayed on ctxstack.Stack + TLC trace validation of sequential, concurrent (linearisability) and interp-level histories + '
-               'Go race detector on a two-goroutine driver'),
+               'Go race detector on a two-goroutine driver; Repl.tla/ReplMC (the REPL loop) model checked, its TLC-emitted sessions run by the real fq -i and validated by TraceRepl.tla'),
 )
 
 # ---- signatures of the defects of the pinned tree (see known_findings.txt)
@@ -659,6 +666,7 @@ def run(ctx):
     interp_arm(ctx)
     gate_arm(ctx, cex)
     ctxrs_arm(ctx)
+    replarm.repl_arm(ctx)
 
 
 def replay(ctx, path):
